@@ -109,12 +109,12 @@ def eq_classes():
 @contract
 class EqualityFields(Contract):
     name = "equality.map"
+    properties = ("C04", "C13")
     functions = tuple(
         f"pytato.equality:EqualityComparer.{c._mapper_method}"
         for c in eq_classes() if hasattr(c, "_mapper_method")) + (
         "pytato.equality:EqualityComparer._map_index_base",
         "pytato.equality:EqualityComparer.map_function_definition")
-    properties = ("C04",)
 
     def instances(self, tier):
         out = []
@@ -145,31 +145,44 @@ class EqualityFields(Contract):
         method = getattr(comparer, mname, None)
         K = inst["cls"]
         if method is None:
-            h.fail(f"eq.has-method[{K}]", f"EqualityComparer lacks {mname}")
+            h.fail(f"eq.has-method[{K}]", f"EqualityComparer lacks {mname}",
+                   props=("C04",))
             return
+        import pyvc.graphmodel as gmod
+        del gmod.EQ_LOG[:]
         try:
             res = h.call(method, b1.obj, b2.obj)
             truth = bool(res)
         except EngineSignal:
             raise
         except Exception as e:  # noqa: BLE001
-            h.fail(f"eq.no-exception[{K}]", f"{type(e).__name__}: {e}")
+            h.fail(f"eq.no-exception[{K}]", f"{type(e).__name__}: {e}",
+                   props=("C04",))
             return
+        # C13: children are compared through the memoised rec(), never by a
+        # direct == (which starts a fresh, unmemoised comparer per edge).
+        # Shape components are exempt: scalar size expressions, compared
+        # structurally with == (map_placeholder & co.).
+        direct = [(a, b_) for a, b_ in gmod.EQ_LOG
+                  if ".shape[" not in a._label and ".newshape[" not in a._label]
+        h.oblige(f"eq.children-through-memoised-rec[{K}]",
+                 z3.BoolVal(not direct), props=("C13",),
+                 info=[a._label for a, _ in direct][:4])
         rel = field_relations(b1, b2)
         if h.canary == "phantom-field":
             rel["phantom"] = SymVal("p1").u == SymVal("p2").u
         if truth:
             for f, formula in rel.items():
-                h.oblige(f"eq.field-covered[{K}.{f}]", formula)
+                h.oblige(f"eq.field-covered[{K}.{f}]", formula, props=("C04",))
         elif K not in IDENTITY_COMPARED:
             h.oblige(f"eq.complete[{K}]",
-                     z3.Not(z3.And(list(rel.values()))))
+                     z3.Not(z3.And(list(rel.values()))), props=("C04",))
         else:
             # identity-compared by documented design: distinct objects are
             # unequal, the object itself is equal
             r2 = h.call(method, b1.obj, b1.obj)
             h.oblige(f"eq.identity-compared-reflexive[{K}]",
-                     z3.BoolVal(r2 is True))
+                     z3.BoolVal(r2 is True), props=("C04",))
 
     def replay(self, inst, clause, model, info):
         import re
